@@ -105,3 +105,14 @@ Example C24_example :
     = Some [32; 97; 61; 34; 38;35;51;52;59; 38;108;116;59; 34]%N /\
   payload (indent_markup [97; 10; 98]%N (Plain [60]%N) false false) = [97; 10; 38;108;116;59; 98]%N.
 Proof. vm_compute. repeat split; reflexivity. Qed.
+
+(* the link text of a trimmed URL is the escaping of a prefix of the text the word stands for,
+   followed by "...": trim_url_limit never cuts through an entity *)
+Theorem C24_urlize_trim_escaped : forall (trim_limit : option nat) (x : str),
+  trim_url trim_limit x = x \/
+  exists n, trim_limit = Some n /\ trim_url trim_limit x = (escape (firstn n (unescape5 x)) ++ [46; 46; 46]%N)%list.
+Proof.
+  intros [n|] x; unfold trim_url; [|now left].
+  destruct (Nat.ltb n (length (unescape5 x))); [right; exists n; split; reflexivity|now left].
+Qed.
+Print Assumptions C24_urlize_trim_escaped.
